@@ -81,6 +81,22 @@ def _g_dep(c, k, mu, sigma_squared, team, rank):
     )
 
 
+class CallbackFailure(RuntimeError):
+    """raised by the 'boom' callback: an application callback that fails for some games (a lookup that misses)"""
+
+
+def _g_boom(c, k, mu, sigma_squared, team, rank):
+    # a pure function of its arguments that FAILS for teams of exactly five players (no generator of the sequences
+    # that use it produces such a team except on purpose) and is 1/k otherwise
+    try:
+        n = len(team)
+    except TypeError:
+        n = 0
+    if n == 5:
+        raise CallbackFailure("gamma callback failed for this team")
+    return 1.0 / k
+
+
 class _Gammas(dict):
     """name -> callback; 'const:<x>' is the constant callback returning float(x)"""
 
@@ -103,6 +119,7 @@ GAMMAS = _Gammas({
     "three": _g_three,
     "zero": _g_zero,
     "dep": _g_dep,
+    "boom": _g_boom,
 })
 
 
@@ -136,10 +153,33 @@ def flat(result):
 DEFAULTS = dict(mu=25.0, sigma=25.0 / 3.0, beta=25.0 / 6.0, kappa=0.0001, tau=25.0 / 300.0, limit_sigma=False)
 
 
+class UserList(list):
+    """what an application may pass where the library asks for a list: an instance of a list SUBCLASS (a roster class,
+    an ORM / pydantic list wrapper).  It is a list in every sense the language defines."""
+
+    roster_name = "app roster"
+
+
+_SUBCLASSES = {}
+
+
+def user_subclass(M):
+    """a trivial application-side subclass of a model class (adds a class attribute and a method, overrides nothing)"""
+    if M not in _SUBCLASSES:
+        _SUBCLASSES[M] = type("App" + M.__name__, (M,), {"app_label": "league-service", "describe": lambda self: f"{self.mu}/{self.sigma}"})
+    return _SUBCLASSES[M]
+
+
+FLAVOURS = ["listsub", "modelsub", "extras", "listsub+modelsub"]
+
+
 def build(case, Ms=None):
     """case -> (model, teams of rating objects, kwargs for rate)."""
     Ms = Ms or models()
     M = Ms[case["model"]]
+    flavour = case.get("flavour") or ""
+    if "modelsub" in flavour:
+        M = user_subclass(M)
     cfg = dict(case.get("cfg") or {})
     g = cfg.pop("gamma", "default")
     if cfg.pop("_defaults", False):
@@ -158,6 +198,16 @@ def build(case, Ms=None):
         flat = [p for t in teams for p in t]
         for i, p in enumerate(flat):
             p.id = f"shared-{i % 2}"
+    if "extras" in flavour:
+        # rating objects that carry application data next to the library's own attributes
+        for i, t in enumerate(teams):
+            for j, p in enumerate(t):
+                try:
+                    p.app_meta = {"seat": (i, j), "games": 3}
+                except AttributeError:  # a __slots__ implementation: nothing to attach, still a valid case
+                    break
+    if "listsub" in flavour:
+        teams = UserList(UserList(t) for t in teams)
     kw = {}
     if case.get("sel") in ("ranks", "scores"):
         if case.get("vals_tags"):
@@ -166,6 +216,8 @@ def build(case, Ms=None):
             kw[case["sel"]] = untag_vals(case["vals"], case["vals_tags"])
         else:
             kw[case["sel"]] = list(case["vals"])
+        if "listsub" in flavour:
+            kw[case["sel"]] = UserList(kw[case["sel"]])
     for k, v in (case.get("call") or {}).items():
         kw[k] = v
     return model, teams, kw
